@@ -7,6 +7,7 @@ or broke the check (exit 2). /repo itself is never touched.
 usage: tools/seeded_regress.py [-j N] [id-substring...]
 """
 import glob, json, os, subprocess, sys, shutil
+V = os.path.dirname(os.path.dirname(os.path.abspath(__file__)))  # the framework directory this tool belongs to (/verif, or a snapshot of it)
 from concurrent.futures import ThreadPoolExecutor
 
 ENV = dict(os.environ, GOFLAGS="-mod=mod", GOPROXY="off", GOSUMDB="off", GOTOOLCHAIN="local")
@@ -15,9 +16,9 @@ ENV = dict(os.environ, GOFLAGS="-mod=mod", GOPROXY="off", GOSUMDB="off", GOTOOLC
 # which workload features must stay off there so that the base's own defects are
 # not credited to the seeded change
 BASES = {
-    "252b0c5": {"VERIF_KNOWN_FILE": "/verif/seeded/known_at_252b0c5.json", "VERIF_NO_RACE": "1", "VERIF_C10_BASE252": "1"},
-    "41a08ec": {"VERIF_KNOWN_FILE": "/verif/seeded/known_at_252b0c5.json", "VERIF_NO_RACE": "1", "VERIF_C10_BASE252": "1"},
-    "210ba83": {"VERIF_KNOWN_FILE": "/verif/seeded/known_at_210ba83.json"},
+    "252b0c5": {"VERIF_KNOWN_FILE": V + "/seeded/known_at_252b0c5.json", "VERIF_NO_RACE": "1", "VERIF_C10_BASE252": "1"},
+    "41a08ec": {"VERIF_KNOWN_FILE": V + "/seeded/known_at_252b0c5.json", "VERIF_NO_RACE": "1", "VERIF_C10_BASE252": "1"},
+    "210ba83": {"VERIF_KNOWN_FILE": V + "/seeded/known_at_210ba83.json"},
 }
 
 def one(d):
@@ -46,7 +47,7 @@ def one(d):
         extra = BASES.get(base, BASES["252b0c5"])
     try:
         env = dict(ENV, VERIF_REPO_DIR=wt, VERIF_OUT_DIR=out, **extra)
-        r = subprocess.run(f"./check {pid} quick", shell=True, cwd="/verif", env=env, capture_output=True, text=True, timeout=1200)
+        r = subprocess.run(f"./check {pid} quick", shell=True, cwd=V, env=env, capture_output=True, text=True, timeout=1200)
         sigs = [l.strip()[11:] for l in r.stdout.splitlines() if l.strip().startswith("signature:")]
         tail = "; ".join(sigs[:3])
         if r.returncode not in (0, 1):
@@ -64,7 +65,7 @@ def main():
     j = 3
     if args[:1] == ["-j"]:
         j = int(args[1]); args = args[2:]
-    dirs = sorted(d for d in glob.glob("/verif/seeded/*") if os.path.isdir(d) and os.path.exists(d + "/patch.diff")
+    dirs = sorted(d for d in glob.glob(V + "/seeded/*") if os.path.isdir(d) and os.path.exists(d + "/patch.diff")
                   and "superseded_by" not in json.load(open(d + "/meta.json")))
     if args:
         dirs = [d for d in dirs if any(a in d for a in args)]
@@ -76,10 +77,10 @@ def main():
     bad = [n for n, v in res if v not in ("caught", "silent-as-expected")]
     print(f"{len(res)-len(bad)}/{len(res)} caught; not caught: {bad}")
     old = {}
-    if args and os.path.exists("/verif/seeded/REGRESSION.json"):  # a partial run updates, a full run replaces
-        old = json.load(open("/verif/seeded/REGRESSION.json"))
+    if args and os.path.exists(V + "/seeded/REGRESSION.json"):  # a partial run updates, a full run replaces
+        old = json.load(open(V + "/seeded/REGRESSION.json"))
     old.update({n: v for n, v in res})
-    json.dump(old, open("/verif/seeded/REGRESSION.json", "w"), indent=1, sort_keys=True)
+    json.dump(old, open(V + "/seeded/REGRESSION.json", "w"), indent=1, sort_keys=True)
     sys.exit(1 if bad else 0)
 
 main()
